@@ -13,12 +13,17 @@ pub mod c07;
 pub mod c08;
 pub mod c09;
 pub mod c10;
+pub mod c11;
+pub mod c12;
 pub mod c13;
 pub mod c15;
 pub mod c16;
+pub mod c17;
+pub mod c18;
+pub mod c19;
 pub mod c20;
 
-pub const ALL: &[&str] = &["C01", "C02", "C03", "C04", "C05", "C06", "C07", "C08", "C09", "C10", "C13", "C15", "C16", "C20"];
+pub const ALL: &[&str] = &["C01", "C02", "C03", "C04", "C05", "C06", "C07", "C08", "C09", "C10", "C11", "C12", "C13", "C15", "C16", "C17", "C18", "C19", "C20"];
 
 pub fn subchecks(prop: &str, tier: Tier) -> Vec<SubCheck> {
     match prop {
@@ -32,9 +37,14 @@ pub fn subchecks(prop: &str, tier: Tier) -> Vec<SubCheck> {
         "C08" => c08::subchecks(tier),
         "C09" => c09::subchecks(tier),
         "C10" => c10::subchecks(tier),
+        "C11" => c11::subchecks(tier),
+        "C12" => c12::subchecks(tier),
         "C13" => c13::subchecks(tier),
         "C15" => c15::subchecks(tier),
         "C16" => c16::subchecks(tier),
+        "C17" => c17::subchecks(tier),
+        "C18" => c18::subchecks(tier),
+        "C19" => c19::subchecks(tier),
         "C20" => c20::subchecks(tier),
         _ => Vec::new(),
     }
